@@ -542,6 +542,11 @@ NP_FUNCS = {
     'numpy.linalg.norm': lambda v, axis=None, keepdims=False, **k: (np.expand_dims(_norm_axis(v, axis), int(axis)) if (keepdims and axis is not None) else _norm_axis(v, axis)),
     'numpy.linalg.det': lambda a: _mat(a).det(), 'numpy.linalg.inv': lambda a: _unmat(_mat(a).inv()),
     'numpy.linalg.solve': lambda a, b: _unmat(_mat(a).solve(_mat(b))) if np.ndim(b) == 2 else arr(list(_mat(a).solve(sp.Matrix(list(b))))),
+    'numpy.tril_indices': lambda n_, k=0, m=None: tuple(np.tril_indices(int(n_), int(k), None if m is None else int(m))),
+    'numpy.triu_indices': lambda n_, k=0, m=None: tuple(np.triu_indices(int(n_), int(k), None if m is None else int(m))),
+    'numpy.ix_': lambda *a: np.ix_(*[np.array([int(v) for v in np.ravel(x)], dtype=int) for x in a]),
+    'numpy.iscomplexobj': lambda x: bool(any(sp.sympify(e).is_real is False or sp.im(sp.sympify(e)) != 0 for e in np.ravel(np.asarray(x, dtype=object)))),
+    'numpy.true_divide': lambda a, b, out=None, **k: _ufunc_out(np.asarray(a, dtype=object) / b if is_arr(a) or is_arr(b) else a / b, out),
     'numpy.isclose': _isclose, 'numpy.allclose': lambda a, b, *ar, **k: _all(_isclose(a, b, *ar, **k)),
     'numpy.diag': lambda a: arr(sp.diag(*list(a)).tolist()) if np.ndim(a) == 1 else np.diagonal(a),
     'numpy.stack': lambda xs, axis=0: np.stack([np.asarray(x, dtype=object) for x in xs], axis=axis),
@@ -690,7 +695,7 @@ def _rint(x):
 
 def _ufunc_out(r, out):
     if out is None:
-        return r if np.ndim(r) else r[()]
+        return r if (np.ndim(r) or not is_arr(r)) else r[()]
     if not is_arr(out):
         raise ModelError('TypeError', 'return arrays must be of ArrayType')
     out[...] = r
@@ -889,6 +894,19 @@ class SymEval:
             for st in self.module.body:      # a helper function of the module under analysis
                 if isinstance(st, ast.FunctionDef) and st.name == n.id:
                     return Closure(st, self)
+        # a function inlined from another module of the repository (a method of a class defined elsewhere) sees that module's helpers and simple constants
+        home = getattr(self.fn_stack[-1], '_mod', None) if self.fn_stack else None
+        if home is not None and home is not self.module:
+            for st in home.body:
+                if isinstance(st, ast.FunctionDef) and st.name == n.id:
+                    sub = SymEval(module_aliases(home))
+                    sub.globals, sub.np_override, sub.decide, sub.classes = self.globals, self.np_override, self.decide, self.classes
+                    return Closure(st, sub)
+                if isinstance(st, ast.Assign) and len(st.targets) == 1 and isinstance(st.targets[0], ast.Name) and st.targets[0].id == n.id and isinstance(st.value, (ast.Constant, ast.Tuple, ast.List, ast.Dict)):
+                    try:
+                        return ast.literal_eval(st.value)
+                    except ValueError:
+                        pass
         g = self.resolve_global(n)
         if g in self.np_override:
             return self.np_override[g]
@@ -912,7 +930,7 @@ class SymEval:
                     return len(x)
                 return _len
             return {'range': lambda *a: list(range(*[int(x) for x in a])), 'len': len, 'int': _int_model, 'float': lambda x: (S(int(x)) if isinstance(x, str) and x.strip().lstrip('+-').isdigit() else (S(float(x)) if isinstance(x, str) else x)),
-                    'abs': lambda x: sp.Abs(x), 'sum': lambda x, start=0: sum(self.iterate(x, n), start), 'min': lambda *a, **k: _minmax(sp.Min, min, a, k, lambda v: self.iterate(v, n)),
+                    'abs': lambda x: (vmap(sp.Abs, x) if is_arr(x) else sp.Abs(x)), 'sum': lambda x, start=0: sum(self.iterate(x, n), start), 'min': lambda *a, **k: _minmax(sp.Min, min, a, k, lambda v: self.iterate(v, n)),
                     'max': lambda *a, **k: _minmax(sp.Max, max, a, k, lambda v: self.iterate(v, n)), 'list': lambda *a: list(self.iterate(a[0], n)) if a else [], 'tuple': lambda *a: tuple(self.iterate(a[0], n)) if a else (),
                     'isinstance': lambda *a: Opaque, 'complex': lambda a, b=0: a + sp.I * b, 'round': lambda x, n=0: x,
                     'zip': lambda *a: list(zip(*[self.iterate(x, n) for x in a])), 'enumerate': lambda a, start=0: list(enumerate(self.iterate(a, n), int(start))), 'str': str}[n.id]
@@ -1170,6 +1188,15 @@ class SymEval:
             return isinstance(op, (ast.Lt, ast.LtE, ast.NotEq))
         if d.is_zero:
             return isinstance(op, (ast.Eq, ast.LtE, ast.GtE))
+        if isinstance(op, (ast.Lt, ast.LtE, ast.Gt, ast.GtE)):
+            # the explicit spelling of a closeness test, |e| <= c (or <) with c a tiny positive constant, is idealised like np.isclose(e, 0): a symbolic quantity in
+            # general position is "tiny" only when it is identically zero
+            dd = d if isinstance(op, (ast.Lt, ast.LtE)) else -d
+            c_, rest = dd.as_coeff_Add()
+            if c_.is_number and c_.is_negative and -c_ <= sp.Rational(1, 10 ** 6) and rest.free_symbols and (rest.has(sp.Abs) or rest.is_nonnegative):
+                z = is_zero(rest, deep=False)
+                tiny = bool(z)
+                return tiny if isinstance(op, (ast.Lt, ast.LtE)) else tiny
         return r
 
     def e_Yield(self, n, p):
@@ -1187,11 +1214,20 @@ class SymEval:
             raise Opaque('undecided conditional expression ' + norm(n))
         return self.ev(n.body if t else n.orelse, p)
 
+    def _display(self, n, p):
+        out = []
+        for e in n.elts:
+            if isinstance(e, ast.Starred):
+                out.extend(self.iterate(self.ev(e.value, p), e.value))      # [*a, x, *b]
+            else:
+                out.append(self.ev(e, p))
+        return out
+
     def e_Tuple(self, n, p):
-        return tuple(self.ev(e, p) for e in n.elts)
+        return tuple(self._display(n, p))
 
     def e_List(self, n, p):
-        return [self.ev(e, p) for e in n.elts]
+        return self._display(n, p)
 
     def e_Dict(self, n, p):
         return {self.ev(k, p): self.ev(v, p) for k, v in zip(n.keys, n.values)}
@@ -1333,6 +1369,20 @@ class SymEval:
                 cur = self.fn_stack[-1].name if self.fn_stack else None
                 if writers and writers <= {cur}:
                     raise _PyRaise('AttributeError', AttributeError(attr))
+            if attr.startswith('__') and not attr.endswith('__'):
+                # the model supplied the value of a public property directly; the private attribute that property hands out (return self.__x / a copy of it) has that value
+                for c in base.mro:
+                    for f in c.body:
+                        if isinstance(f, ast.FunctionDef) and f.name in base.attrs and any(norm(d) == 'property' for d in f.decorator_list):
+                            rets = [r for r in ast.walk(f) if isinstance(r, ast.Return) and r.value is not None]
+                            if len(rets) == 1:
+                                v = rets[0].value
+                                if isinstance(v, ast.Call) and norm(v.func) in ('deepcopy', 'copy.deepcopy', 'np.array', 'numpy.array') and len(v.args) == 1:
+                                    v = v.args[0]
+                                if isinstance(v, ast.Call) and isinstance(v.func, ast.Attribute) and v.func.attr == 'copy' and not v.args:
+                                    v = v.func.value
+                                if isinstance(v, ast.Attribute) and isinstance(v.value, ast.Name) and v.value.id == 'self' and v.attr == attr:
+                                    return base.attrs[f.name]
             raise Opaque('attribute %s.%s unknown' % (base.name, attr))
         if is_arr(base):
             if attr == 'T':
@@ -2056,10 +2106,19 @@ def _like_shape(x, k):
     return tuple(int(v) for v in (sh if isinstance(sh, (tuple, list)) else [sh]))
 
 
+def _generic(e):
+    """mask entry in general position: an equality between symbolic quantities that is not an identity does not hold, an inequality (!=) does"""
+    if isinstance(e, sp.Equality) and e.free_symbols:
+        return False
+    if isinstance(e, sp.Unequality) and e.free_symbols:
+        return True
+    return e
+
+
 def _intidx(x):
     """an index array of exact integers (or decided booleans) as a numpy index array"""
     if is_arr(x) and x.dtype == object and x.size:
-        flat = list(x.ravel())
+        flat = [_generic(e) for e in x.ravel()]
         if all(isinstance(e, (bool, np.bool_)) or e is sp.true or e is sp.false for e in flat):
             return np.array([bool(e) for e in flat], dtype=bool).reshape(x.shape)
         if all(isinstance(e, (int, np.integer, sp.Integer)) and not isinstance(e, (bool, np.bool_)) for e in flat):
